@@ -6,7 +6,7 @@
 
    np.fft.fft2 / np.fft.ifft2 are modelled by their contract (numpy's documented definition): the defining sums
        fft2  a [u,v] = sum_x sum_y a[x,y] e(x u/m) e(y v/n),       e t = exp(-2 pi i t) = the scalar's kernel [ke]
-       ifft2 F [i,j] = 1/m 1/n sum_u sum_v F[u,v] e(-i u/m) e(-j v/n)
+       ifft2 F [i,j] = 1/(m n) sum_u sum_v F[u,v] e(-i u/m) e(-j v/n)
    evaluated axis by axis (two passes, each materialised with [force]).
    The transcendental functions are parameters (oracle inputs):
        sinc  q = sin(pi q)/(pi q)          (np.sinc)
@@ -31,8 +31,9 @@ Variable S : Scalar.
 (* ---- one-dimensional transforms on index functions ---- *)
 Definition dft1 (n : Z) (f : Z -> S) (u : Z) : S :=
   sumZ n (fun x => (f x * ke (tq (x * u) n))%K).
-Definition idft1 (n : Z) (F : Z -> S) (y : Z) : S :=
-  (kofq (/ zQ n)%Qc * sumZ n (fun u => (F u * ke (tq (- (y * u)) n))%K))%K.
+(* the inverse kernel, without the 1/n *)
+Definition idft1r (n : Z) (F : Z -> S) (y : Z) : S :=
+  sumZ n (fun u => (F u * ke (tq (- (y * u)) n))%K).
 
 (* ---- np.fft.fft2 / np.fft.ifft2: the 1-D transform along axis 0, then along axis 1 ---- *)
 Definition fft2 (a : arr S) : arr S :=
@@ -41,14 +42,14 @@ Definition fft2 (a : arr S) : arr S :=
   force (mkArr m n (fun u v => dft1 n (fun y => get t u y) v)).
 Definition ifft2 (F : arr S) : arr S :=
   let m := nr F in let n := nc F in
-  let t := force (mkArr m n (fun u j => idft1 n (fun v => get F u v) j)) in
-  force (mkArr m n (fun i j => idft1 m (fun u => get t u j) i)).
+  let t := force (mkArr m n (fun u j => idft1r n (fun v => get F u v) j)) in
+  force (mkArr m n (fun i j => (kofq (/ zQ (m * n))%Qc * idft1r m (fun u => get t u j) i)%K)).
 
 (* element-wise product, shape of the first operand (the code's operands always have equal shapes) *)
 Definition amul (a b : arr S) : arr S := mkArr (nr a) (nc a) (fun i j => (get a i j * get b i j)%K).
 
 (* the complex array  ifft2(fft2(img) * kernel)  before the absolute value *)
-Definition conv (kernel img : arr S) : arr S := ifft2 (amul (fft2 img) kernel).
+Definition conv (kernel img : arr S) : arr S := ifft2 (force (amul (fft2 img) kernel)).
 
 (* np.roll(a, (sr, sc), axis=(0, 1)) *)
 Definition roll (a : arr S) (sr sc : Z) : arr S :=
@@ -76,9 +77,11 @@ Definition jitter_mul (scale pixelscale os : Qc) (m n : Z) : arr S :=
   let s := extent scale pixelscale os in
   mkArr m n (fun i j => gauss (s * s * (fftfreq n j * fftfreq n j + fftfreq m i * fftfreq m i))%Qc).
 
-(* smear: yy_rot = sin(angle)*yy + cos(angle)*xx;  kernel = sinc(yy_rot * (distance/pixelscale) * oversample) *)
+(* smear: yy_rot = sin(angle)*yy + cos(angle)*xx;  kernel = sinc(yy_rot * (distance/pixelscale) * oversample)
+   (in exact arithmetic yy_rot * (d/p) * os = yy_rot * ((d/p) * os)) *)
 Definition smear_mul (distance sn cs pixelscale os : Qc) (m n : Z) : arr S :=
-  mkArr m n (fun i j => sinc ((sn * fftfreq m i + cs * fftfreq n j) * (distance / pixelscale) * os)%Qc).
+  let e := extent distance pixelscale os in
+  mkArr m n (fun i j => sinc ((sn * fftfreq m i + cs * fftfreq n j) * e)%Qc).
 
 (* ---- absolute value and the renormalisation of jitter / smear ---- *)
 Variable kabs : S -> S.
@@ -98,7 +101,7 @@ Definition smear (img : arr S) (distance sn cs pixelscale os : Qc) : arr S :=
   renorm (blur (smear_mul distance sn cs pixelscale os (nr img) (nc img)) img) img.
 End Blur.
 
-Arguments dft1 {S}. Arguments idft1 {S}. Arguments fft2 {S}. Arguments ifft2 {S}. Arguments amul {S}.
+Arguments dft1 {S}. Arguments idft1r {S}. Arguments fft2 {S}. Arguments ifft2 {S}. Arguments amul {S}.
 Arguments conv {S}. Arguments roll {S}. Arguments cconv {S}.
 Arguments pixel_mul {S}. Arguments jitter_mul {S}. Arguments smear_mul {S}.
 Arguments renorm {S}. Arguments blur {S}. Arguments pixel {S}. Arguments jitter {S}. Arguments smear {S}.
